@@ -646,3 +646,36 @@ def a6(proj, rep, modules):
                     rep.ok('A6', fi.qual, f'`{ast.unparse(sub)}`: columns {sorted(set(used))} of {t}, column 0 on axis 0', m, st)
     rep.count('A6.sites', n)
     return n
+
+
+# ------------------------------------------------------------------------------------------------ IP1
+RULES['IP1'] = ('IP1: inner_product_psi0_O_psi1 evaluates <psi0| A B C |psi1> for a term [A, B, C] (documented as the left-to-right matrix product): the factors are '
+                'applied to the ket from the RIGHT end, i.e. the loop / reduction over a term iterates `reversed(term)`. Forward iteration computes '
+                '<psi0| C B A |psi1>, which differs as soon as two factors on a common qubit do not commute.')
+
+
+def ip1(proj, rep):
+    rep.rule('IP1', RULES['IP1'])
+    f = proj.func('numqi.sim.state.inner_product_psi0_O_psi1')
+    m = f.module
+    rep.touch(m)
+    # the iteration that applies gates: a For whose body calls apply_gate, or a functools.reduce whose function calls apply_gate
+    site = None
+    for x in ast.walk(f.node):
+        if isinstance(x, ast.For) and any(isinstance(c, ast.Call) and ast.unparse(c.func).endswith('apply_gate') for c in ast.walk(x)) \
+                and not any(isinstance(y, ast.For) and y is not x and any(isinstance(c, ast.Call) and ast.unparse(c.func).endswith('apply_gate') for c in ast.walk(y))
+                            for y in ast.walk(x)):
+            site = ('for', x, x.iter)
+        if isinstance(x, ast.Call) and ast.unparse(x.func).endswith('reduce') and len(x.args) >= 2:
+            site = ('reduce', x, x.args[1])
+    if site is None:
+        rep.undecided('IP1', f.qual, 'iteration over the factors of a term not found', m, f.node, text='factor order')
+        return 0
+    kind, node, it = site
+    t = ast.unparse(it).replace(' ', '')
+    if t.startswith('reversed(') or t.endswith('[::-1]'):
+        rep.ok('IP1', f.qual, f'factors applied to the ket in reversed order (`{t}`)', m, node)
+    else:
+        rep.violation('IP1', f.qual, f'the factors of a term are applied to the ket in list order (`{t}`): a term [A, B] evaluates <psi0|B A|psi1> instead of the '
+                      f'documented <psi0|A B|psi1>', m, node)
+    return 1
